@@ -201,6 +201,19 @@ class CollateH(Harness):
         return items
 
     def _call(self, items):
+        import pydrobert.torch.config as CFG
+        import pydrobert.torch._dataloaders  # noqa: F401  (imported before the configuration is changed, as in a running program)
+        c = self.cfg
+        if c.get("pad_value") is None:
+            return self._call_(items)
+        old = CFG.INDEX_PAD_VALUE      # the pad value is the configuration value at the time of the call
+        CFG.INDEX_PAD_VALUE = c["pad_value"]
+        try:
+            return self._call_(items)
+        finally:
+            CFG.INDEX_PAD_VALUE = old
+
+    def _call_(self, items):
         import pydrobert.torch._dataloaders as D
         c = self.cfg
         if c["kind"] == "spect":
@@ -243,7 +256,7 @@ class CollateH(Harness):
             viol.append(("batch not sorted by decreasing length", key != sorted(key, reverse=True)))
         else:
             viol.append(("batch order changed although sort=False", list(uttids) != [it[3] for it in items]))
-        PADI = -100  # config.INDEX_PAD_VALUE
+        PADI = c["pad_value"] if c.get("pad_value") is not None else -100  # config.INDEX_PAD_VALUE
 
         def rows(t):
             cc = cells_of(t)
@@ -344,4 +357,6 @@ def tasks(tier):
                 if kind == "window" and not (bf and srt):
                     continue
                 ts.append(task(PROP, M_, "CollateH", kind=kind, lens=list(lens), rlens=list(rlens), batch_first=bf, sort=srt, F=2, nvalidate=1))
+    for kind in ("spect", "lang"):    # config.INDEX_PAD_VALUE changed at run time
+        ts.append(task(PROP, M_, "CollateH", kind=kind, lens=[3, 1, 2], rlens=[1, 3, 0], batch_first=(kind == "lang"), sort=True, F=2, pad_value=-1, nvalidate=1))
     return ts
